@@ -64,8 +64,12 @@ def run(tier, seed):
     def top(l):
         s = l[-1]
         return ((s["st"]["h"] << 16) | s["st"]["l"]) + s["len"] - 1 >= 0xffffffff
-    tops = [l for l in layouts if top(l)]
-    layouts = [l for l in layouts if not top(l)] + sorted(tops, key=lambda l: (len(l), l[-1]["len"]))[:2]
+    def wraps(l):
+        s = l[-1]
+        return ((s["st"]["h"] << 16) | s["st"]["l"]) + s["len"] > (1 << 32)
+    # an image that runs past 0xffffffff wraps to address 0 and is not a layout any format can describe
+    tops = [l for l in layouts if top(l) and not wraps(l)]
+    layouts = [l for l in layouts if not top(l)] + sorted(tops, key=lambda l: (len(l), l[-1]["len"]))[:4]
 
     fdir = os.path.join(rd, "f")
     os.makedirs(fdir)
